@@ -471,4 +471,24 @@ def rule_f(ctx):
     return r
 
 
-RULES = [rule_ab, rule_c, rule_d, rule_e, rule_f]
+
+def rule_g(ctx):
+    r = RuleResult("C03-g", "@each destructuring binds every listed variable on every iteration: the values zipped with the variables are the element's values followed by an "
+                   "unbounded supply of null (the variable list is never longer than what it is zipped with)")
+    prog = ctx.prog()
+    b = prog.one("evaluate::visitor::Visitor::visit_each_stmt")
+    zips = [c for c in b.calls() if an.tail2(c.callee) == "Iterator::zip" and c.fn_args and "common::Identifier" in c.fn_args[0]]
+    if len(zips) != 1:
+        raise AnchorMissing("visit_each_stmt: expected one zip of the variable names with the element values, found %d" % len(zips))
+    other = zips[0].fn_args[1] if len(zips[0].fn_args) > 1 else ""
+    INFINITE = ("iter::adapters::cycle::Cycle<", "iter::sources::repeat::Repeat<", "iter::sources::repeat_with::RepeatWith<")
+    key = "visit_each_stmt|missing-values-are-null"
+    if "iter::adapters::chain::Chain<" in other and any(x in other for x in INFINITE) and "value::Value" in other:
+        r.ok(key, padded_with=[x for x in INFINITE if x in other])
+    else:
+        r.violate(key, "visit_each_stmt zips the @each variables with `%s`, which is not the element's values chained with an endless null iterator: when an element has two or "
+                  "more values fewer than there are variables, the later variables are not assigned and keep their value from the previous iteration" % other[:200], zips[0].loc())
+    return r
+
+
+RULES = [rule_ab, rule_c, rule_d, rule_e, rule_f, rule_g]
